@@ -1627,9 +1627,11 @@ def unit_src(tg, vg, u, rngseed, mode, partners):
         names = sorted(full_mset(R).keys()) if not is_iface(R) else sorted(underlying(R).all_methods().keys())
         names = [n_ for n_ in names if n_[:1].isupper()]
         skip_v = "C15-method-direct-addressable" in tg.avoid and direct_shaped(R) and not isinstance(underlying(R), Ptr)
+        guard = "if !reflect.ValueOf(&d).Elem().IsNil() { " if is_iface(R) else ""
+        unguard = " }" if is_iface(R) else ""
         for nm in names[:6] + ["Nope"]:
             if not skip_v:
-                add("\tw.Res(%s, reflect.ValueOf(&d).Elem().MethodByName(%s))" % (go_quote("v." + nm), go_quote(nm)))
+                add("\t%sw.Res(%s, reflect.ValueOf(&d).Elem().MethodByName(%s))%s" % (guard, go_quote("v." + nm), go_quote(nm), unguard))
             add("\tw.Res(%s, reflect.ValueOf(&d).MethodByName(%s))" % (go_quote("p." + nm), go_quote(nm)))
         add("\tif reflect.ValueOf(&d).NumMethod() > 0 {")
         add("\t\tw.Res(\"p.#0\", reflect.ValueOf(&d).Method(0))")
@@ -1733,7 +1735,7 @@ def generate(seed, index, tier="quick", only=None, avoid=()):
 
 
 EXTRA_AVOID = ("C15-method-direct-addressable", "C15-map-indirect-slot-size", "C15-empty-string-to-slice", "C15-convert-float32",
-               "C15-method-order-pkgpath", "C15-alias-struct-methods-link", "C15-alias-generic-link", "C15-typearg-struct-string", "C15-alias-typelist", "C15-recursive-func-struct-offsets")
+               "C15-method-order-pkgpath", "C15-alias-struct-methods-link", "C15-alias-generic-link", "C15-typearg-struct-string", "C15-alias-typelist", "C15-recursive-func-struct-offsets", "C15-call-return-overflow")
 ALL_AVOID = ("C15-main-pkg-path", "C15-named-iface-pkgpath", "C15-structstr-tags", "C15-func-struct-tags", "C15-tag-collision",
              "C15-ptrto-extra-star", "C15-named-ptr-string", "C15-named-func-type", "C15-convert-int-narrow", "C15-chan-paren",
              "C15-funcof-func-identity", "C15-func-elem-size", "C15-ptr-func-addr", "C15-trailing-zero-size", "C15-call-pointer-args",
